@@ -12,6 +12,7 @@ import Noodles.Bcf.DriverC10Record
 import Noodles.Gff.DriverC18
 import Noodles.Trunc.DriverC13
 import Noodles.Trunc.DriverC13More
+import Noodles.Bgzf.DriverC13Seek
 import Noodles.Bam.DriverC05
 import Noodles.Bam.DriverC05Reenc
 import Noodles.Bgzf.DriverC14
@@ -41,7 +42,7 @@ def dispatch (line : String) : String :=
   | "c19" :: rest => Cram.Index.handleC19 rest
   | "c10" :: rest => Bcf.handleC10X rest
   | "c18" :: rest => Gff.Driver.handleC18 rest
-  | "c13" :: rest => (Trunc.More.handle? rest).getD (Trunc.handleC13 rest)
+  | "c13" :: rest => ((Trunc.More.handle? rest) <|> (Bgzf.SC.handle? rest)).getD (Trunc.handleC13 rest)
   | "c05" :: "re" :: rest => Bam.DriverReenc.handle rest
   | "c05" :: rest => Bam.Driver.handle rest
   | "c14" :: rest => (WP.Driver.handle? rest).getD (Bgzf.SM.handleC14 rest)
